@@ -55,7 +55,15 @@ func main() {
 				rp = []string{}
 			}
 		}
+		// the code under test prints progress/diagnostics to stdout; keep our own channel
+		realStdout := os.Stdout
+		if devnull, err := os.OpenFile(os.DevNull, os.O_WRONLY, 0); err == nil {
+			os.Stdout = devnull
+		}
+		defer props.CleanupScratch()
 		res := core.Execute(p, *driver, *seed, *tier, rp)
+		os.Stdout = realStdout
+		props.CleanupScratch()
 		if *out != "" {
 			if err := core.WriteResult(res, *out); err != nil {
 				fmt.Fprintln(os.Stderr, err)
